@@ -235,3 +235,5 @@ def check(ctx, run):  # noqa: F811
         exhaustive_histories_rule(ctx, run, "C12.R9x", 3, jobs=max(1, min(8, _os.cpu_count() or 1)))
     else:
         exhaustive_histories_rule(ctx, run, "C12.R9x", 2)
+    from ..ctors import rebinding_rule
+    rebinding_rule(ctx, run, "C12.R2", ['pfhedge.instruments.derivative'], 20)
